@@ -7,7 +7,7 @@ from comp.qs import gen
 RULE = ("lock-step scripts over 1-4 agents / 1-6 nodes (online/offline/quiescent_state/await_barrier/run/quiescent_barrier, "
         "each agent on its own thread, one API call at a time), 8% with one call violating a precondition, 70% ending in drain "
         "rounds + expect_drained; concurrent stress scripts (2-3 agents; readers/writers) under ASan and TSan; thorough adds all "
-        "valid call sequences of 1 agent x <=8, 2 agents x <=6, 3 agents x <=5 calls. non-trivial = distinct lock-step script in "
+        "valid call sequences of 1 agent x <=9, 2 agents x <=7, 3 agents x <=6 calls, an exhaustive exploration of all interleavings of the fine-grained model on 60 small script sets and a randomised vector-clock check of the C11_hb statement. non-trivial = distinct lock-step script in "
         "which a callback ran and some agent held a deferred period")
 TRUSTED = ["extraction: ExtrOcamlBasic only; OCaml 4.13.1; comp/qs/driver.ml",
            "translator/gen_qs.py (clang 14 JSON AST of qs.hpp -> coq/Gen/QsOrders.v: atomic accesses with memory orders, guard scopes, "
@@ -60,7 +60,7 @@ def make_cases(c):
     if quick:
         cases += gen.exhaustive(1, 5) + gen.exhaustive(2, 4)
     else:
-        cases += gen.exhaustive(1, 8) + gen.exhaustive(2, 6) + gen.exhaustive(3, 5)
+        cases += gen.exhaustive(1, 9) + gen.exhaustive(2, 7) + gen.exhaustive(3, 6)
     return cases
 
 
